@@ -68,7 +68,8 @@ pub fn gen(rng: &mut Rng) -> LockScenario {
     let mut budget = 120usize; // at most 128 distinct bits
     let threads = (0..n_threads)
         .map(|_| {
-            let n = (1 + rng.usize(6)).min((budget / 2).max(1));
+            // a thread that finds the bit budget used up applies nothing
+            let n = if budget < 2 { 0 } else { (1 + rng.usize(6)).min(budget / 2) };
             budget = budget.saturating_sub(2 * n);
             (0..n)
                 .map(|_| {
